@@ -86,7 +86,11 @@ fn main() {
                 continue;
             }
         };
-        let method = *rng.pick(methods);
+        let mut method = *rng.pick(methods);
+        if desc.starts_with("who_moves_first") && method == SolveMethod::Sampled && methods.contains(&SolveMethod::Full) {
+            // a sampled chance root selects one subtree per pass, so both move orders never meet
+            method = SolveMethod::Full;
+        }
         let params = if rng.chance(0.7) { ParamSpec::random(&mut rng) } else { ParamSpec::random_custom(&mut rng) };
         let iters = *rng.pick(&[1u64, 2, 2, 3]);
         let threads = *rng.pick(&[2usize, 2, 3]);
